@@ -12,12 +12,17 @@ ASSUMPTIONS = [
     'the statuses are those the git host returns for the integration tips at evaluation time '
     '(the status table is keyed by commit; histories where tips move are covered by the system-level checks)',
     'there is at least one integration branch (create_integration_branches always yields the first target)',
+    'end-to-end theorems (C06_e2e_*): facts about commit contents that the ref-level model does not carry are inputs '
+    'of the composed model (Model/Eval.lean `Facts`: commit-diff count, cascade outcome and target versions, '
+    'branch-history check, host skew); a commit without entry in the host table is NOTSTARTED',
 ]
 TRUSTED = [
     'Lean 4 kernel; axioms of every theorem audited (subset of propext, Classical.choice, Quot.sound)',
     'harness/extract_tables.py (AST extraction of the ranking tuple, reducer and if/elif chain of check_build_status)',
     'correspondence harness harness/c06.py (stub job around the real check_build_status, real SettingsDict and PullRequestJob.author_bypass)',
     'modelled, not verified: the git host get_build_status call (a function from commit and key to status)',
+    'hand-written composed model lean/BertE/Model/Eval.lean, tied to the real BertE + mock host + real git by '
+    'harness/evalsys.py (stage, job status, notify_user classes and refs of every pull-request evaluation)',
 ]
 
 STATUSES = ['SUCCESSFUL', 'INPROGRESS', 'NOTSTARTED', 'STOPPED', 'FAILED']
@@ -139,10 +144,16 @@ def correspondence(ctx):
             res.samples.append({'statuses': vec, 'bypass': byp, 'build_key': key, 'real': obs, 'model': ans})
     if not res.samples:
         res.samples.append({'statuses': all_cells[0][0], 'bypass': all_cells[0][1], 'real': 'pass'})
+    # end-to-end phase: the gate inside whole evaluations of the real system (composed model, stale statuses)
+    from . import evalsys
+    evalsys.phase(ctx, res, PID)
     return res
 
 
 def replay(ctx, payload):
+    from . import evalsys
+    if evalsys.is_mine(payload):
+        return evalsys.replay(ctx, payload)
     f = payload['failure']['input']
     res = Result()
     cell = (tuple(f['statuses']), f['bypass'], f['build_key'])
